@@ -50,6 +50,8 @@ package sourcebundle
 // that package's own rules already) and with links dereferenced.
 //@ func (*Bundle).WriteArchive -> (err)
 //@   sweep
+// NewPacker cannot fail with the one option given here (its contract), so the error return after it is dead code
+//@   opt dead-return=can't instantiate archive packer
 //@   requires pre.b: b != nil
 //@   ghost $packCalls Int = 0
 //@   at-call go-slug.Packer.Pack C09.archive.packer: a0 != nil && a0.dereference && !a0.applyTerraformIgnore && len(a0.allowSymlinkTargets) == 0 && a1 == b.rootDir
